@@ -60,7 +60,12 @@ def make_still(spec):
         img = base.convert("LA")
         return img if mode == "LA" else base.convert("PA") if hasattr(Image, "core") else img
     if mode == "P":
-        return base.convert("RGB").convert("P", palette=Image.Palette.ADAPTIVE, colors=8)
+        im = base.convert("RGB").convert("P", palette=Image.Palette.ADAPTIVE, colors=8)
+        if spec.get("ptrans") is not None:
+            # palette transparency (GIF / tRNS style): one palette index is fully transparent
+            used = sorted(set(im.getdata()))
+            im.info["transparency"] = used[spec["ptrans"] % len(used)]
+        return im
     return base.convert("RGB").convert(mode)
 
 
